@@ -376,6 +376,51 @@ def c15_composite(n: int, k0: int, x0: int, k1: int, x1: int, k2: int, x2: int, 
     return ok()
 
 
+def c15_cfail(rk: int, dep: bool, reg: bool) -> bool:
+    """
+    A call that fails inside a C-implemented callable (no Python frame of its own in the traceback), under every way of
+    giving `retry`: the observer still gets exactly one 'failed' for the one 'running' of that call, is exited once and
+    last, and run raises CallError with the very exception.  rk: 0 no retry, 1 retry=2, 2 a custom decorator that returns the
+    function unchanged, 3 a custom decorator that wraps it (retries twice).
+
+    pre: 0 <= rk <= 3
+    post: _
+    """
+    begin()
+    import operator
+
+    from uberjob._util.retry import create_retry
+
+    w = W.World(W.NOW)
+    plan = uberjob.Plan()
+    a = plan.call(_mk_fn(0, w))
+    b_ = plan.call(operator.truediv, 1, 0)  # ZeroDivisionError raised by C code
+    if dep:
+        plan.add_dependency(a, b_)
+    registry = None
+    if reg:
+        registry = uberjob.Registry()
+        registry.add(a, W.LStore(0, False, 0, None, w))
+    retry = [None, 2, (lambda f: f), (lambda f: create_retry(2)(f))][rk]
+    rec = Rec()
+    try:
+        uberjob.run(plan, registry=registry, output=[a, b_], retry=retry, progress=Progress(lambda: rec), max_workers=1)
+        return False
+    except uberjob.CallError as e:
+        if e.call is not b_ or not isinstance(e.__cause__, ZeroDivisionError):
+            return False
+    except Exception:
+        return False  # nothing but CallError may come out of a run whose call failed
+    acc = account(rec.log, sequential=True)
+    if acc is None:
+        return False
+    tot, comp, fail = acc
+    failed_keys = [k for k, v in fail.items() if v]
+    if len(failed_keys) != 1 or failed_keys[0][0] != "run" or fail[failed_keys[0]] != 1:
+        return False
+    return ok()
+
+
 def c15_enter_fail(m: int, r: int) -> bool:
     """
     Member r of m raises in __enter__: the composite's __enter__ raises that error, the members entered before it are
